@@ -7,6 +7,27 @@ CHECKS = {
  "C01": dict(cat="exploration", tech="bounded-exhaustive enumeration of the image-class x lossless-option product on the real encoder/decoder, differential oracle against an independent decoder",
    text="Every leaf of a finite product (size class x colour-content class x alpha class x Go image type x Quality thresholds x Method 0..6 x Exact x metadata, plus every tiny image over a 5-pixel alphabet) is encoded and decoded by the real code; decoded pixels must equal the source read through color.NRGBAModel, by this package's decoder and by the vendored x/image decoder. Exhaustive within the stated alphabet; the right level because the defect regions are defined by joint class conditions, which the product visits completely.",
    note="Trusts: vendored golang.org/x/image vp8l decoder as independent reference; worker count pinned to 1 and pools never reuse (studied by C12/C11); filler pixel values inside a class are fixed functions of position and seed.", ref="3/C01"),
+ "C02": dict(cat="exploration", tech="deviation-bounded exhaustive enumeration of EncoderOptions (<=2, thorough <=3 fields off default) x image alphabet on the real encoder; strict container validator + independent decoder, libwebp arbitrating",
+   text="All option sets with at most 2 (thorough 3) fields away from DefaultOptions(), each field over its menu of valid values, on a 12-picture alphabet; every output is checked by a RIFF/VP8/VP8L validator written from the specification and decoded by this package and by the vendored x/image decoder (planes/pixels equal; libwebp arbitrates disagreements). Complete up to the stated interaction bound, which covers every single and pairwise option interaction - the region where container and bitstream invariants were found to break.",
+   note="Trusts riffwalk (own validator), vendored x/image vp8/vp8l, optional libwebp arbiter; 3-way (4-way) interactions and pictures outside the alphabet are not covered.", ref="3/C02"),
+ "C05": dict(cat="fault_enumeration", tech="exhaustive single-fault (header region: double-fault) enumeration over seed files, executed in isolated worker processes with allocation and CPU accounting",
+   text="Every prefix, every byte position x 9-value boundary alphabet, every recognised size/dimension field x 15-value boundary alphabet, every chunk delete/duplicate/swap/re-tag, all deviation pairs in the header region, and RIFF skeleton strings, for ~55 seed files; each input is pushed through all nine decoding entry points in a supervised child (panic, process death, CPU blow-up, deadlock, TotalAlloc bound, malformed result).",
+   note="Inputs declaring more than 2^22 (thorough 2^26) pixels within the documented caps are skipped and counted; faults are bounded to 1 (header: 2) per seed; allocation is TotalAlloc, time is process CPU time.", ref="3/C05"),
+ "C07": dict(cat="exploration", tech="full-product enumeration of alpha-pattern x alpha-option space on the real lossy encoder/decoder with a reference ALPH decoder",
+   text="Full product of alpha pattern class x size x RGB class x AlphaCompression x AlphaFiltering x AlphaQuality thresholds x Method x Exact; decoded alpha must equal source alpha at AlphaQuality 100 (and by the reference ALPH decoder), and obey the documented level count / kept extremes below 100.",
+   note="Trusts the reference ALPH decoder (written from the container specification over vendored x/image vp8l); worker count pinned, pools fresh.", ref="3/C07"),
+ "C15": dict(cat="exploration", tech="full-product enumeration of metadata blob alphabet^3 x output kinds; byte-exact read-back through three parsers",
+   text="Full product of a 10-blob alphabet (absent, nil, empty, 1-3 bytes, chunk-look-alike, 4095/4096/65537 bytes) for each of ICC/EXIF/XMP x 6 output kinds (lossy, lossless, +alpha, 1- and 2-frame AnimEncoder); blobs read back byte-exact by riffwalk, mux.GetChunk and animation.DecodeBytes; flags = presence; bitstream, ALPH payload and pixels identical to the no-metadata output.",
+   note="100 MB cap edge is not enumerated in quick; worker count pinned, pools fresh.", ref="3/C15"),
+ "C17": dict(cat="fault_enumeration", tech="complete enumeration of all proper prefixes of every corpus file against the three public entry points",
+   text="Every proper prefix (all cut points) of ~50 valid still files covering lossy 1-8 partitions, lossless per transform class, lossy+alpha raw/VP8L x filters, extended layouts with metadata/unknown chunks before and after the image, odd payloads: Decode must fail or return the identical picture; DecodeConfig/GetFeatures must fail or return identical values.",
+   note="Corpus files are small (<= 6 KB) so that the enumeration is complete; files outside the corpus classes are not covered.", ref="3/C17"),
+ "C19": dict(cat="exploration", tech="full-product enumeration of picture x storage placement x codec options; byte equality against the canonical placement",
+   text="Full product of picture (size x content x alpha) x 10 storage placements (sub-image, odd sub-image, negative origin, stride padding, poisoned parents, generic wrappers, over-long Pix) x codec x Exact x sharp YUV x dithering x Method; all placements must give bytes identical to the plain NRGBA-at-origin encoding and leave the caller's buffer untouched.",
+   note="RGBA/NRGBA64 wrappers only for opaque pictures (exactly representable colours); worker count pinned, pools fresh.", ref="3/C19"),
+ "C20": dict(cat="exploration", tech="pairwise-exhaustive enumeration of EncoderOptions boundary values (deviation bound 2) + documented-equivalence byte comparison",
+   text="Every field at its boundary values (min-1..max+1, sentinels, MinInt/MaxInt, NaN/Inf/-0), all (field,value) pairs, on 3 pictures: never panics, error XOR conformant decodable file. Every documented sentinel/inert-field equivalence is checked byte-for-byte under every single-field context; nil = DefaultOptions(); boundary images (nil args, empty/inverted bounds, 16383/16384 px, failing writer).",
+   note="Validator and independent decoder as in C02; 3-way value interactions not covered.", ref="3/C20"),
 }
 NA = {}
 ALL = ["C%02d" % i for i in range(1, 21)]
